@@ -140,6 +140,10 @@ func (t *Transformer) maybeRecursivelyMangle(mangler Mangler, state *transformMa
 		switch ft.Kind() {
 		case reflect.Ptr, reflect.Array, reflect.Slice:
 			ft = ft.Elem()
+			// the element may be a TextUnmarshaler too ([]time.Time)
+			if ft.Implements(textMReflectType) || reflect.PointerTo(ft).Implements(textMReflectType) {
+				continue
+			}
 		}
 
 		fieldTransformer := Transformer{
